@@ -56,13 +56,27 @@ for p, k, w in sorted(known):
 out.append("")
 out.append("### 9.6 Seeded changes (`seeded/<id>/`: patch.diff, demonstration, meta.json) and which check reports them\n")
 out.append("Each change was written by a fresh sub-agent that saw only the property text and a scratch worktree; it compiles, passes the repository's tests, and its demonstration fails with it and passes without (re-confirmed by `tools/verify_seed.sh`).\n")
-out.append("| seed | property | needs, in order to manifest | reported by |")
-out.append("|---|---|---|---|")
+out.append("The last column is the outcome of the latest `tools/sweep_seeds.py` run of the property's own quick check against the change (`seeded/<id>/result.txt`); the column before it is the history (what reported the change when it was first tried).\n")
+out.append("| seed | property | needs, in order to manifest | reported by (history) | latest sweep, own check |")
+out.append("|---|---|---|---|---|")
+nrep = ntot = 0
 for d in sorted(glob.glob(os.path.join(R, "seeded", "*"))):
     mp = os.path.join(d, "meta.json")
     if not os.path.exists(mp): continue
     m = json.load(open(mp))
-    out.append("| %s | %s | %s | %s |" % (os.path.basename(d), m["property"], m["needs_to_manifest"].replace("|", "\\|"), m["detected_by"].replace("|", "\\|")))
+    last = "not run"
+    rp = os.path.join(d, "result.txt")
+    if os.path.exists(rp):
+        l = open(rp).readline()
+        mm = re.search(r"(\d+) VIOLATION line\(s\), (\d+) of them no-failing-input-found", l)
+        if mm:
+            v, nf = int(mm.group(1)), int(mm.group(2))
+            last = "not reported" if v == 0 else ("VIOLATION with failing input" if v > nf else "VIOLATION no-failing-input-found")
+            ntot += 1; nrep += (v > 0)
+    if m.get("status_now"): last += " (" + m["status_now"] + ")"
+    out.append("| %s | %s | %s | %s | %s |" % (os.path.basename(d), m["property"], m["needs_to_manifest"].replace("|", "\\|"), m["detected_by"].replace("|", "\\|"), last.replace("|", "\\|")))
+out.append("")
+out.append("Latest sweep: %d of %d seeded changes are reported by the quick check of their own property." % (nrep, ntot))
 out.append("")
 gen = "\n".join(out)
 p = os.path.join(R, "DESIGN.md")
